@@ -147,6 +147,9 @@ SUBSETS = [(), ("log_q",), ("log_likelihood", "log_prior"), ("log_likelihood", "
 
 
 class GetItem(Contract):
+    def must_return(self, shape):
+        return True
+
     """C16/C10: any selection returns the same selection of every per-sample field; evidence carried"""
     cls = "BaseSamples"
     properties = ("C16", "C10")
@@ -276,6 +279,9 @@ from contracts.smc_base import ResampleModel, ToStandardSamplesModel  # noqa: E4
 
 
 class Resample(ResampleModel):
+    def must_return(self, shape):
+        return True
+
     qual = "samples:SMCSamples.resample"
     properties = ("C09", "C10", "C20")
     doc = ("beta == self.beta and n_samples is None -> self.  Otherwise exactly one rng.choice(len(self), size=M, replace=True, p=P) on the "
